@@ -166,6 +166,9 @@ def stepC (s : St) : Op → St × Out
     | none => (s, .skip)
     | some c => let (s1, r) := wasNotified s o c; (s1, .res r)
 
+/-- `n` stamps are drawn from the process-wide counter by code unrelated to these observers. -/
+def jump (s : St) (n : Nat) : St := { s with counter := s.counter + n }
+
 /-- History most-recent-first: final state and the outputs (most recent first). -/
 def runC : List Op → St × List Out
   | [] => ({}, [])
